@@ -961,6 +961,42 @@ def gen_case_falsy_owner(rng, tier=None):
                 form='set_of', falsy_objects=True)
 
 
+def exhaustive_small_scope():
+    """EVERY condition with at most two connectives (and_ / or_, any association) over a fixed alphabet of six leaves on two variables,
+    plain and negated at the root, x every selection ([x, y], [x], [y]) x two fixed datasets (0/1-valued attributes, three objects per
+    domain, overlapping): 1 806 trees x 2 x 3 x 2 = 21 672 cases.  Used by the thorough tier of C02 (deterministic, no PRNG)."""
+    fa = lambda k, f: ['map', ['f', F[f]], ['var', k]]
+    leaves = [['cmp', '==', fa(1, 'a'), ['lit', 1]], ['cmp', '==', fa(2, 'a'), ['lit', 1]], ['cmp', '==', fa(1, 'a'), fa(2, 'a')],
+              ['cmp', '<=', fa(1, 'b'), fa(2, 'a')], ['cmp', '!=', fa(1, 'a'), fa(2, 'b')], ['cmp', '==', fa(2, 'b'), ['lit', 0]]]
+    trees = list(leaves)
+    for op in ('and', 'or'):
+        for l in leaves:
+            for r in leaves:
+                trees.append([op, l, r, 'fn'])
+    for op1 in ('and', 'or'):
+        for op2 in ('and', 'or'):
+            for a in leaves:
+                for b in leaves:
+                    for c in leaves:
+                        trees.append([op1, [op2, a, b, 'fn'], c, 'fn'])
+                        trees.append([op1, a, [op2, b, c, 'fn'], 'fn'])
+    def obj(a, b):
+        return [a, b, '', [], None, False, [0, 0], {'o': 0}, False, [], []]
+    datasets = [([obj(0, 0), obj(1, 0), obj(0, 1), obj(1, 1)], [[1, [0, 1, 2]], [2, [1, 2, 3]]]),
+                ([obj(1, 1), obj(0, 1), obj(1, 0), obj(0, 0), obj(1, 1)], [[1, [0, 1, 3]], [2, [4, 2, 1]]])]
+    out = []
+    for t in trees:
+        for cond in (t, ['not', t, 'fn']):
+            used = cond_keys(cond, set())
+            for sel in ([1, 2], [1], [2]):
+                if not all(k in used for k in sel):
+                    continue
+                for heap, doms in datasets:
+                    out.append(dict(heap=heap, doms=[d for d in doms if d[0] in used], binders=[['var', k] for k in (1, 2) if k in used],
+                                    sel=[['var', k] for k in sel], cond=cond, form='set_of'))
+    return out
+
+
 def gen_pair(rng, tier):
     nv = rng.choice([1, 2, 2, 3])
     orig = gen_case(rng, nvars=nv, falsy=True, neg=True, maxdepth=3, select=rng.choice(['all', 'some']), dom_max=3)
